@@ -191,8 +191,17 @@ async def execute(gen, ops, w: SockWorld, run: Run, counters=None):
             if rec.get("mode") == "hdr":
                 # the other public entry point: caller-supplied header
                 reg = H.registry(gen)
-                size = reg.get_encoder(msg.message_id).size(msg)
-                hdr = reg.header_factory.create_from_message(msg, size)
+                if rec["kind"] == "bad:unregistered":
+                    # nothing looks the encoder up before the message is held: a header made
+                    # for some other message, with this message's id
+                    import dataclasses
+                    good = make_message(gen, "zone_ctrl", 1)[0]
+                    hdr = reg.header_factory.create_from_message(
+                        good, reg.get_encoder(good.message_id).size(good))
+                    hdr = dataclasses.replace(hdr, message_id=msg.message_id, message_length=0)
+                else:
+                    size = reg.get_encoder(msg.message_id).size(msg)
+                    hdr = reg.header_factory.create_from_message(msg, size)
                 await w.sock.send_with_header(hdr, msg, policy)
             else:
                 await w.sock.send(msg, policy)
@@ -231,7 +240,7 @@ async def execute(gen, ops, w: SockWorld, run: Run, counters=None):
                    "policy": POLICIES["idem"], "typ": None, "data": None, "outcome": "pending",
                    "ret_seq": None, "mode": op[2] if len(op) > 2 else "inline"}
             run.sends.append(rec)
-            if rec["mode"] == "inline":
+            if rec["mode"] in ("inline", "hdr"):
                 await do_send(msg, rec, POLICIES["idem"])
             else:
                 tasks.append(loop.create_task(do_send(msg, rec, POLICIES["idem"])))
